@@ -645,3 +645,49 @@ pub fn exit_ecall_family(rng: &mut Rng) -> Shape {
     p.push(Ins::ret());
     Shape { name: "exit-number-inherited", prog: p }
 }
+
+/// A program full of boundary immediates (C13, C17): 32-bit constants around 0, 2^11, 2^12, 2^31 and
+/// 2^32 in `li`, 12-bit immediates at both ends of their range, 20-bit `lui` operands, shift amounts
+/// 0 and 31, memory offsets at the ends of the range. Whatever diagnostics it draws, they must not
+/// depend on the notation the numbers are written in.
+pub fn literal_family(rng: &mut Rng) -> Shape {
+    let mut p = Program::default();
+    p.label("main");
+    p.push(Ins::li(9, 0));
+    let temps = [5u8, 6, 7, 28, 29, 30, 31];
+    const BIG: [i32; 14] = [i32::MIN, i32::MIN, i32::MIN + 1, i32::MAX, i32::MAX - 1, -1, 0, 1, 0x800, -0x801, 0x7ff, -0x800, 0x1000, -0x1000];
+    const SMALL: [i32; 8] = [-2048, -2047, -1, 0, 1, 2046, 2047, 1024];
+    for _ in 0..8 + rng.below(10) {
+        let t = temps[rng.below(temps.len())];
+        match rng.below(8) {
+            0..=2 => p.push(Ins::li(t, if rng.chance(0.7) { BIG[rng.below(BIG.len())] } else { rng.interesting_i32() })),
+            3 => {
+                p.push(Ins::li(t, rng.range(-50, 50) as i32));
+                p.push(Ins::AluI { op: *rng.pick(&[AluOp::Add, AluOp::And, AluOp::Or, AluOp::Xor, AluOp::Slt, AluOp::Sltu]), rd: t, rs1: t, imm: SMALL[rng.below(SMALL.len())] });
+            }
+            4 => p.push(Ins::Lui { rd: t, imm: *rng.pick(&[0, 1, 0x7ffff, 0x80000, 0xfffff, 0x12345]) }),
+            5 => {
+                p.push(Ins::li(t, rng.interesting_i32()));
+                p.push(Ins::AluI { op: *rng.pick(&[AluOp::Sll, AluOp::Srl, AluOp::Sra]), rd: t, rs1: t, imm: *rng.pick(&[0, 1, 31, 16]) });
+            }
+            6 => {
+                p.push(Ins::La { rd: t, label: "buf".into() });
+                p.push(Ins::lw(t, *rng.pick(&[0, 4, 2044, -4, -2048]), t));
+            }
+            _ => {
+                p.push(Ins::li(t, BIG[rng.below(BIG.len())]));
+                p.push(Ins::La { rd: 10, label: "buf".into() });
+                p.push(Ins::sw(t, *rng.pick(&[0, 4, 8, 2044]), 10));
+            }
+        }
+        p.push(Ins::Alu { op: AluOp::Xor, rd: 9, rs1: 9, rs2: t });
+    }
+    p.push(Ins::mv(A0, 9));
+    p.push(Ins::li(A7, 1));
+    p.push(Ins::Ecall);
+    exit(&mut p);
+    p.lines.push(Line::SecData);
+    p.label("buf");
+    p.lines.push(Line::Data(Data::Space(4096)));
+    Shape { name: "boundary-literals", prog: p }
+}
